@@ -112,8 +112,14 @@ func (e *Engine) AddContractFile(path, pkgPath string) error {
 				e.Contracts[k] = fc
 				continue
 			}
-			if e.typesPkg(pkgPath) == nil {
-				continue // the package is not part of this program: its function types cannot occur
+			initial := false
+			for _, p := range e.Pkgs {
+				if p.PkgPath == pkgPath {
+					initial = true
+				}
+			}
+			if !initial {
+				continue // the package is not under verification here: calls through its function types do not occur
 			}
 			return fmt.Errorf("%s:%d: cannot resolve function type %q", path, fc.Line, fc.Name)
 		}
